@@ -14,3 +14,10 @@ func (t *Transaction) VNRtx() int               { return t.nRtx }
 func (t *Transaction) VResultChan() any         { return t.resultCh }
 
 func (m *TransactionMap) VEntries() map[string]*Transaction { return m.trMap }
+
+// Constants of the client package needed by the schedule lemma (root package harness).
+func VMaxRtxInterval() time.Duration         { return maxRtxInterval }
+func VMaxRetryAttempts() int                 { return maxRetryAttempts }
+func VDefaultPermRefresh() time.Duration     { return defaultPermRefreshInterval }
+func VDefaultBindingRefresh() time.Duration  { return defaultBindingRefreshInterval }
+func VDefaultBindingCheck() time.Duration    { return defaultBindingCheckInterval }
